@@ -23,9 +23,12 @@ static inline bool wi_has(WI i, uint64_t v){
   if (wi_bot(i)) return false;
   if (wi_top(i)) return true;
   return ((v - WS(i)) & msk(WW(i))) <= wi_span(i); }
-/* an operand / result of an operation at width w: well formed, and either bottom, top (these two carry
- * an irrelevant width: top() is built at width 3, bottom() at width 1) or of width w */
-static inline bool wi_okw(WI i, uint64_t w){ return wi_ok(i) && (wi_bot(i) || wi_top(i) || WW(i) == w); }
+/* an operand / result of an operation at width w: well formed, and of width w (any start, end, flag) or one of the
+ * two width-less constants the class builds: top() = [0,7] at width 3, bottom() = flagged [0,0] at width 1.
+ * Every constructor establishes this and every operation preserves it (it is a postcondition of every contract). */
+static inline bool wi_deftop(WI i){ return i.f2 == 0 && WW(i) == 3 && WS(i) == 0 && WE(i) == 7; }
+static inline bool wi_defbot(WI i){ return i.f2 == 1 && WW(i) == 1 && WS(i) == 0 && WE(i) == 0; }
+static inline bool wi_okw(WI i, uint64_t w){ return wi_ok(i) && (WW(i) == w || wi_deftop(i) || wi_defbot(i)); }
 /* a proper interval of width w: neither bottom nor top */
 static inline bool wi_proper(WI i, uint64_t w){ return wi_ok(i) && !wi_bot(i) && !wi_top(i) && WW(i) == w; }
 static inline bool wi_is(WI i, uint64_t w, uint64_t s, uint64_t e){ return wi_ok(i) && !wi_bot(i) && WW(i) == w && WS(i) == s && WE(i) == e; }
